@@ -233,6 +233,81 @@ Example C03_dispatcher_example :
   fst (CLDisp.drun CLDisp.d0 l) 4 = None.
 Proof. exact CLDisp.dispatcher_example. Qed.
 
+(* THE DISPATCHER WITH ITS TWO KINDS OF MUTEX (CLDispConc.v): listenerMutex (L) around every access to the map, the
+   list's own mutex (M_e) around every list section except empty()'s read; one machine step per lock, unlock, map
+   access and list section; any number of threads with any sequence of calls; per call a flag whether L is kept across
+   the list section (the adders do, the others release it first — the theorems hold for every assignment of the flag).
+   A call may also be a WALK (dispatch, forEach): the list is looked up under L, L is released, and the list found is
+   traversed as doForEachIf does — head read under M_e, the generation counter loaded, then a look at each node (its
+   callback is called when the node is neither removed nor younger than the walk) alternating with the step to the next
+   node under M_e.  The invariant says in particular that the list a walk has found is still in the map whenever the
+   walk is about to lock its mutex (DInv's i_entry; tie A: no member function takes entries out of the map).
+   For every schedule: the map and the reported results are those of the sequential run of one section per call in the
+   order in which the sections (or the lookups that found nothing) were executed; the map was only touched under L and
+   the links only under M_e; every event's list is the run of its own sections; no configuration is stuck. *)
+From EV Require CLDispConc.
+
+Theorem C03_dispatcher_machine_linearizes :
+  forall prog sched,
+    (forall t, Forall CLDispConc.call_wf (prog t)) ->
+    let c := CLDispConc.dcrun (CLDispConc.dinit prog) sched in
+    (forall e, CLDisp.dget (CLDispConc.dmap c) e
+               = CLDisp.dget (fst (CLDisp.drun CLDisp.d0 (map CLDispConc.sec3 (CLDispConc.dlog c)))) e) /\
+    map CLDispConc.res3 (CLDispConc.dlog c) = snd (CLDisp.drun CLDisp.d0 (map CLDispConc.sec3 (CLDispConc.dlog c))) /\
+    Forall CLDisp.dsec_wf (map CLDispConc.sec3 (CLDispConc.dlog c)) /\
+    CLDispConc.dbad c = false.
+Proof. exact CLDispConc.dispatcher_machine_linearizes. Qed.
+Print Assumptions C03_dispatcher_machine_linearizes.
+
+Theorem C03_dispatcher_machine_lists :
+  forall prog sched e,
+    (forall t, Forall CLDispConc.call_wf (prog t)) ->
+    let c := CLDispConc.dcrun (CLDispConc.dinit prog) sched in
+    CLDisp.dget (CLDispConc.dmap c) e
+    = fst (run_secs empty_group (CLDisp.secs_for e (map CLDispConc.sec3 (CLDispConc.dlog c)))).
+Proof. exact CLDispConc.dispatcher_machine_lists. Qed.
+Print Assumptions C03_dispatcher_machine_lists.
+
+(* the lock variables agree with where the threads are (mutual exclusion on L and on every M_e), entries that a thread
+   has found stay in the map, in every configuration every schedule reaches *)
+Theorem C03_dispatcher_machine_invariant :
+  forall prog sched,
+    (forall t, Forall CLDispConc.call_wf (prog t)) -> CLDispConc.DInv (CLDispConc.dcrun (CLDispConc.dinit prog) sched).
+Proof. exact CLDispConc.dispatcher_machine_invariant. Qed.
+Print Assumptions C03_dispatcher_machine_invariant.
+
+(* no deadlock between L and the lists' mutexes: while some thread has not finished, some thread can take a step (and a
+   thread that can, does: C03_dispatcher_step_moves) *)
+Theorem C03_dispatcher_machine_never_stuck :
+  forall c t, CLDispConc.DInv c -> ~ CLDispConc.finished c t -> exists u, CLDispConc.can_step c u = true.
+Proof. exact CLDispConc.dispatcher_machine_never_stuck. Qed.
+Print Assumptions C03_dispatcher_machine_never_stuck.
+
+Theorem C03_dispatcher_step_moves :
+  forall c t, CLDispConc.can_step c t = true -> CLDispConc.thr (CLDispConc.dcstep c t) t <> CLDispConc.thr c t.
+Proof. exact CLDispConc.can_step_moves. Qed.
+
+Example C03_dispatcher_machine_example :
+  let prog := fun t => match t with
+                       | 0 => [CLDispConc.KSec true (CLDisp.DAdd 7 (SBack 1 0%N)); CLDispConc.KSec false (CLDisp.DOn 7 (SRemove (Some 0)))]
+                       | 1 => [CLDispConc.KSec true (CLDisp.DAdd 7 (SFront 2 0%N))]
+                       | 2 => [CLDispConc.KSec false (CLDisp.DOn 7 (SRemove (Some 0))); CLDispConc.KSec false (CLDisp.DOn 4 SEmpty)]
+                       | 3 => [CLDispConc.KWalk 7]
+                       | _ => []
+                       end in
+  let c := CLDispConc.dcrun (CLDispConc.dinit prog)
+             ([2; 2; 2;  0; 0; 0; 0; 0; 0; 0;  0; 0; 0;  1; 1; 1; 1; 1;  0;  1;  0;  1;  0; 0; 0;  2; 2; 2] ++ repeat 3 20) in
+  map CLDispConc.res3 (CLDispConc.dlog c) = [false; true; true; true; true] /\
+  map CLDispConc.sec3 (CLDispConc.dlog c)
+  = [CLDisp.DOn 7 (SRemove (Some 0)); CLDisp.DAdd 7 (SBack 1 1%N); CLDisp.DAdd 7 (SFront 2 2%N); CLDisp.DOn 7 (SRemove (Some 0)); CLDisp.DOn 4 SEmpty] /\
+  map (fun y => fst (fst y)) (CLDispConc.dlog c) = [2; 0; 1; 0; 2] /\
+  CLDispConc.dbad c = false /\ CLDispConc.lkL c = None /\
+  map (CLDispConc.thr c) [0; 1; 2; 3] = [(CLDispConc.Idle, []); (CLDispConc.Idle, []); (CLDispConc.Idle, []); (CLDispConc.Idle, [])] /\
+  CLDisp.dget (CLDispConc.dmap c) 7 = fst (run_secs empty_group [SBack 1 1%N; SFront 2 2%N; SRemove (Some 0)]) /\
+  CLDispConc.dmap c 4 = None /\
+  CLDispConc.dvis c = [(3, 7, 2)] /\ CLDispConc.dcnt c 7 = 2%N.
+Proof. exact CLDispConc.dispatcher_machine_example. Qed.
+
 (* non-vacuity: an interleaving in which thread 1 removes the node thread 0's traversal stands on *)
 Example C03_example :
   let '(tr, fin) := lc_run_case 600 [[LAppend 1 0; LAppend 2 1; LInvoke 7%Z]; [LRemove 0; LAppend 3 2; LRemove 0]]
@@ -270,6 +345,13 @@ Print Assumptions C03_lock_scopes_are_the_reviewed_ones.
 
 (* the SpinLock mutex policy (eventpolicies.h): with lock()/unlock() as they are in the header (tie A,
    GenSpin), any number of threads, every schedule: at most one thread holds the lock *)
+(* the dispatcher machine relies on: a list that a lookup has found stays where it is.  Tie A: no member function of
+   the dispatchers (construction, assignment, swap and destruction of the whole object aside) takes an entry out of
+   eventCallbackListMap — no erase / clear / extract / merge on it, no assignment to it, no swap of it *)
+Theorem C03_dispatcher_entries_are_never_erased :
+  GenLocks.dispatcher_map_erasers = [] /\ GenLocks.heter_dispatcher_map_erasers = [].
+Proof. split; reflexivity. Qed.
+
 From EV Require SpinModel.
 From EV.gen Require GenSpin.
 
